@@ -305,3 +305,21 @@ harness! {
         assert!(qf.remainders.len() >= 8 && succinct::BitVec::block_len(&qf.remainders) == 1, "C11 remainders: ceil(2^bq * br / 64) blocks");
     }
 }
+
+// clone(): independent copy (bounded: 2 slots, every canonical state)
+harness! {
+    #[kani::unwind(8)]
+    fn c19_qf_clone_independent() {
+        let mask: u32 = any();
+        assume(mask < 16 && popcount(mask) <= 2);
+        let l0 = enc::<2, 2>(mask);
+        let mut a = build::<2>(1, 1, &l0);
+        let mut b = a.clone();
+        let f: usize = any();
+        assume(f < 4);
+        assert!(same::<2>(&b, &l0), "C19 a clone has the state of the original");
+        let which: bool = any();
+        if which { let _ = a.insert_internal(f / 2, f % 2); } else { let _ = b.insert_internal(f / 2, f % 2); }
+        assert!(same::<2>(if which { &b } else { &a }, &l0), "C19 clone and original do not share state");
+    }
+}
